@@ -403,7 +403,7 @@ class CInterp:
                     v = FV(v.v)
                 v = self.coerce(v, qt)
             else:
-                v = FV([None] * 4) if "fvec4" in qt else (StdVector() if "vector" in qt else None)
+                v = FV([None] * 4) if "fvec4" in qt else (StdVector() if ("vector" in qt and "iterator" not in qt) else None)
             if self.decl_hook:
                 v = self.decl_hook(self, env, d.get("name"), v)
             env[d["id"]] = v
@@ -914,6 +914,17 @@ class CInterp:
             if isinstance(a0, VecRegion):
                 return self.mem_ref(Ptr(a0.region, 0), idx)
             raise Unsupported("operator[] on " + type(a0).__name__)
+        if isinstance(a0, VecIter):
+            if op == "operator*":
+                return a0.vec.items[a0.i]
+            if op == "operator++":
+                new = VecIter(a0.vec, a0.i + 1)
+                args[0].set(new)
+                return new
+            if op in ("operator!=", "operator=="):
+                b = self.rv(args[1])
+                same = a0.vec is b.vec and a0.i == b.i
+                return same if op == "operator==" else not same
         if op == "operator=":
             v = self.rv(args[1])
             if isinstance(v, FV):
@@ -972,9 +983,20 @@ class CInterp:
                 return None
             if name == "empty":
                 return not obj.items
+            if name in ("begin", "cbegin"):
+                return VecIter(obj, 0)
+            if name in ("end", "cend"):
+                return VecIter(obj, len(obj.items))
             if name == "back":
                 return LRef(lambda: obj.items[-1], lambda v: obj.items.__setitem__(-1, v))
         raise Unsupported(f"member call {name} on {type(obj).__name__}")
+
+
+class VecIter:
+    """std::vector<T>::const_iterator"""
+
+    def __init__(self, vec, i):
+        self.vec, self.i = vec, i
 
 
 class VecRegion:
